@@ -261,8 +261,9 @@ func vh_run_releases() {
 		vAssume(ctx.err != nil) // otherwise run legitimately waits for the consumer
 	}
 	before := len(results)
+	noHost := vBool("policy_offers_no_usable_host") // do then ends with ErrNoConnections: that IS the query's outcome
 	ex.run(ctx, q, func() SelectedHost {
-		if used {
+		if used || noHost {
 			return nil
 		}
 		used = true
@@ -270,6 +271,14 @@ func vh_run_releases() {
 	}, results)
 	vAssert(q.released == 1, "C13/run/always-releases")
 	vAssert(len(results) <= 1 && len(results) >= before, "C13/run/at-most-one-result")
+	if ctx.err == nil && before == 0 {
+		// the caller of executeQuery waits for exactly this: whatever the outcome, a live execution publishes it
+		vAssert(len(results) == 1, "C13/run/a-live-execution-publishes-its-outcome")
+		if len(results) == 1 && noHost {
+			it := <-results
+			vAssert(it != nil && it.err == ErrNoConnections, "C13/run/no-usable-host-is-reported-as-such")
+		}
+	}
 	vObserve("n", len(results))
 }
 
